@@ -74,6 +74,42 @@ class RecordingHMF(HMF):
         return new
 
 
+class Guard(object):
+    """bit-exact snapshot of caller-owned arrays"""
+
+    def __init__(self, **arrays):
+        self.live = {k: v for k, v in arrays.items() if isinstance(v, np.ndarray)}
+        self.snap = {k: (v.dtype, v.shape, v.tobytes()) for k, v in self.live.items()}
+
+    def changed(self):
+        return sorted(k for k, v in self.live.items() if (v.dtype, v.shape, v.tobytes()) != self.snap[k])
+
+
+def read_orders(make, orders):
+    """read the (lazy) attributes of fresh objects in several orders; the values must not depend on the order.
+    Returns (values of the first order, list of {order, attr, maxdiff}, names of modified arguments)."""
+    first = None
+    bad = []
+    changed = set()
+    for order in orders:
+        obj, guard = make()
+        vals = {}
+        for name in order:
+            vals[name] = np.array(getattr(obj, name), dtype='d', copy=True)
+        changed.update(guard.changed())
+        if first is None:
+            first = vals
+            continue
+        for name in order:
+            a, b = first[name], vals[name]
+            if a.shape != b.shape or not np.array_equal(a, b):
+                with np.errstate(all='ignore'):
+                    md = float(np.nanmax(np.abs(a - b))) if a.shape == b.shape and a.size else float('inf')
+                bad.append({'order': order, 'attr': name, 'maxdiff': md if np.isfinite(md) else 'nonfinite'})
+                break
+    return first, bad, sorted(changed)
+
+
 def call(c):
     f = c['f']
     try:
@@ -83,21 +119,30 @@ def call(c):
                 b, sq, A = arr(c['b']), arr(c['sq']), arr(c['A'])
                 if c.get('one_d'):
                     A = A[:, 0]
-                o = computechi2(b, sq, A)
-                out = {'acoeff': tolist(o.acoeff), 'chi2': float(o.chi2), 'yfit': tolist(o.yfit), 'dof': int(o.dof),
-                       'covar': tolist(o.covar), 'var': tolist(o.var)}
-                if not finite(o.acoeff, o.chi2, o.yfit, o.covar, o.var):
+                names = ['acoeff', 'chi2', 'yfit', 'dof', 'covar', 'var']
+
+                def make():
+                    b1, s1, A1 = b.copy(), sq.copy(), A.copy()
+                    return computechi2(b1, s1, A1), Guard(bvec=b1, sqivar=s1, amatrix=A1)
+                v, bad, changed = read_orders(make, [names] + [o_ for o_ in c.get('orders', []) if sorted(o_) == sorted(names)])
+                out = {'acoeff': tolist(v['acoeff']), 'chi2': float(v['chi2']), 'yfit': tolist(v['yfit']), 'dof': int(v['dof']),
+                       'covar': tolist(v['covar']), 'var': tolist(v['var']), 'order_dependent': bad, 'args_changed': changed}
+                if not finite(*[v[k] for k in names]):
                     return {'err': 'nonfinite'}
                 return {'ok': out}
             if f == 'pcomp':
                 x = arr(c['x'])
-                x0 = x.copy()
-                o = pcomp(x, standardize=bool(c['standardize']), covariance=bool(c['covariance']))
-                out = {'eigenvalues': tolist(o.eigenvalues), 'coefficients': tolist(o.coefficients),
-                       'derived': tolist(o.derived), 'variance': tolist(o.variance),
-                       'input_unchanged': bool(np.array_equal(x, x0))}
-                if not finite(o.eigenvalues, o.coefficients, o.derived, o.variance):
-                    return {'err': 'nonfinite', 'eigenvalues': [repr(v) for v in np.asarray(o.eigenvalues).tolist()]}
+                names = ['eigenvalues', 'coefficients', 'derived', 'variance']
+
+                def make():
+                    x1 = x.copy()
+                    return pcomp(x1, standardize=bool(c['standardize']), covariance=bool(c['covariance'])), Guard(x=x1)
+                v, bad, changed = read_orders(make, [names] + [o_ for o_ in c.get('orders', []) if sorted(o_) == sorted(names)])
+                out = {'eigenvalues': tolist(v['eigenvalues']), 'coefficients': tolist(v['coefficients']),
+                       'derived': tolist(v['derived']), 'variance': tolist(v['variance']),
+                       'input_unchanged': not changed, 'order_dependent': bad, 'args_changed': changed}
+                if not finite(*[v[k] for k in names]):
+                    return {'err': 'nonfinite', 'eigenvalues': [repr(q) for q in np.asarray(v['eigenvalues']).tolist()]}
                 return {'ok': out}
             if f == 'hmf_step':
                 s, w, a, g = arr(c['s']), arr(c['w']), arr(c['a']), arr(c['g'])
@@ -137,7 +182,33 @@ def call(c):
                                  'inputs_unchanged': bool(np.array_equal(s1, s) and np.array_equal(w1, w)),
                                  'rms': tolist(np.sqrt((d['flux'] ** 2).mean(1)))})
                 r0, r1 = runs
+                # histories: several objects created BEFORE any is solved, other users of numpy's global generator in
+                # between; then the same object solved again after the caller edited the arrays it got back
+                def mk():
+                    return RecordingHMF(s.copy(), w.copy(), K=c['K'], n_iter=c['n_iter'], seed=c['seed'],
+                                        nonnegative=bool(c['nonnegative']), epsilon=c.get('eps'))
+                a0, g0 = np.array(r0['a'], copy=True), np.array(r0['g'], copy=True)
+                hs = [mk(), mk()]
+                np.random.random(4)
+                d1 = hs[0].solve()
+                hist = []
+                if not (np.array_equal(d1['acoeff'], a0) and np.array_equal(d1['flux'], g0)):
+                    hist.append('two objects created, random numbers drawn, first object solved')
+                np.random.seed(424242)
+                np.random.random(2)
+                d2 = hs[1].solve()
+                if not (np.array_equal(d2['acoeff'], a0) and np.array_equal(d2['flux'], g0)):
+                    hist.append('two objects created, first solved, generator reseeded by someone else, second object solved')
+                d1['acoeff'] += 1.0
+                d1['flux'] += 1.0
+                try:
+                    d3 = hs[0].solve()
+                    if not (np.array_equal(d3['acoeff'], a0) and np.array_equal(d3['flux'], g0)):
+                        hist.append('solved, returned arrays edited in place, solved again')
+                except Exception as e:  # noqa: BLE001
+                    hist.append('solved, returned arrays edited in place, solve() again raised %s' % type(e).__name__)
                 out = {'identical': bool(np.array_equal(r0['a'], r1['a']) and np.array_equal(r0['g'], r1['g'])),
+                       'history_dependent': hist,
                        'shape_a': list(r0['a'].shape), 'shape_g': list(r0['g'].shape),
                        'inputs_unchanged': r0['inputs_unchanged'] and r1['inputs_unchanged'],
                        'min_a': float(np.min(r0['a'])), 'min_g': float(np.min(r0['g'])),
@@ -148,9 +219,17 @@ def call(c):
                 f0, i0 = flux.copy(), ivar.copy()
                 d = pca_solve(flux, ivar, nkeep=c['nkeep'], niter=c.get('niter', 10), maxiter=c.get('maxiter', 0),
                               nreturn=c.get('nreturn'))
+                # the same call again on fresh copies, after the caller edited what the first call returned
+                keep = {k: np.array(d[k], copy=True) for k in ('flux', 'acoeff', 'eigenval')}
+                for k in ('flux', 'acoeff'):
+                    d[k] += 1
+                d_again = pca_solve(f0.copy(), i0.copy(), nkeep=c['nkeep'], niter=c.get('niter', 10), maxiter=c.get('maxiter', 0),
+                                    nreturn=c.get('nreturn'))
+                repeatable = all(np.array_equal(keep[k], d_again[k]) for k in keep)
+                d = dict(d, **keep)
                 out = {'flux': tolist(d['flux']), 'acoeff': tolist(d['acoeff']), 'eigenval': tolist(d['eigenval']),
                        'usemask': [int(v) for v in np.asarray(d['usemask']).tolist()],
-                       'flux_dtype': str(d['flux'].dtype),
+                       'flux_dtype': str(d['flux'].dtype), 'repeatable': bool(repeatable),
                        'inputs_unchanged': bool(np.array_equal(flux, f0) and np.array_equal(ivar, i0))}
                 if not finite(d['flux'], d['acoeff'], d['eigenval']):
                     return {'err': 'nonfinite'}
